@@ -1299,3 +1299,26 @@ Proof.
     apply IH. destruct (iter_run f ks (S j) (S q)) as [|x t] eqn:Er; cbn [call_start length nth] in *; exact Hi.
   - cbn [length call_start]. rewrite Nat.add_0_r. intros i Hi. now apply (first_set_none _ _ E).
 Qed.
+
+(** a clone copies the value AND the flags of every attribute that has a value
+    (copy_data: isset, persist), so that what the application set stays
+    persistent in the clone's private copy; attributes without a value are
+    copied as such *)
+Lemma clone_node_flags n :
+  akey (clone_node n) = akey n /\ aty (clone_node n) = aty n /\
+  aisset (clone_node n) = aisset n /\
+  (aisset n = true -> apersist (clone_node n) = apersist n /\ aval_of (clone_node n) = aval_of n) /\
+  (aisset n = false -> apersist (clone_node n) = false).
+Proof. destruct n as [k t s p v kids]. cbn. destruct s; repeat split; intros; try discriminate; reflexivity. Qed.
+
+(** hence a re-open through the clone keeps it there exactly as in the original *)
+Lemma clone_then_reopen_keeps n :
+  aisset n = true -> apersist n = true ->
+  entry_of (fst (clear_volatile (clone_node n))) =
+  {| e_ty := aty n; e_set := true; e_persist := true; e_val := aval_of n |}.
+Proof.
+  intros Hs Hp. rewrite cv_entry.
+  destruct (clone_node_flags n) as (_ & Ht & Hi & Hv & _). destruct (Hv Hs) as [Hpp Hvv].
+  rewrite Ht, Hi, Hpp, Hvv, Hs, Hp.
+  rewrite (persistent_has_persist (clone_node n)) by (rewrite Hpp; exact Hp). reflexivity.
+Qed.
